@@ -3,6 +3,7 @@ from .. import mmio
 from ..astq import walk, walk_parents, field_path, unwrap_casts, const_value, direct_writes, direct_reads
 from ..guards import guards_at
 from ..norm import render, render_stmt, Renderer, short_fn
+import re
 from ..sib import switch_arms
 
 D = 'Teakra::Dma'
@@ -28,29 +29,62 @@ def run(ctx):
     ctx.rule(D5, 'AHBM units: Read32 / WriteInternal advance the burst address by 1/2/4 for U8/U16/U32 with the matching alignment '
                  'mask; burst sizes are 1/4/8; the AHBM channel of a DMA channel is the first whose connect mask has that bit set', floor=4)
     dodma = ctx.fn(D + '::DoDma(unsigned short)')
-    start = ctx.fn(CH + '::Start()')
+    start = F.get(CH + '::Start()')
+    start_inlined = start is None        # Start() written out in its only caller: DoDma itself initialises the cursors
+    if start_inlined:
+        start = dodma
     tick = ctx.fn(CH + '::Tick(Teakra::Dma &)')
     setz = ctx.fn(D + '::SetZ(unsigned short)')
     # ---- D1
-    r = Renderer(dodma, inline_locals=False)
-    stmts = dodma['body'].get('body', [])
-    txt = [r.s(s) for s in stmts]
+    # decided on the guarded summary (ASSERTs are not effects; independent statements may stand in either order): on every
+    # path DoDma performs exactly {Start, bind ahbm_channel, the Tick loop, one interrupt}, with Start and the binding before
+    # the loop and the interrupt after it
+    from .. import summ, boolform
     ctx.inst(D1)
     C = '([] f:%s::channels $0)' % D
-    want = ['(call %s::Start on %s )' % (CH, C),
-            '(= (. %s %s::ahbm_channel) (call %s::GetChannelForDma on f:%s::ahbm $0))' % (C, CH, AH, D),
-            '(while (. %s %s::running) (call %s::Tick on %s (* this)))' % (C, CH, CH, C),
-            '(() f:%s::interrupt_handler)' % D]
-    if txt != want:
-        ctx.report(D1, dodma, dodma['body'], 'DoDma sequence', 'DoDma is not Start; bind AHBM channel; while (running) Tick; interrupt once: %s' % txt)
-    for f in (start, tick):
+    E_START = ('call', '(call %s::Start on %s )' % (CH, C))
+    E_GET = ('call', '(call %s::GetChannelForDma on f:%s::ahbm $0)' % (AH, D))
+    E_BIND = ('write', '(. %s %s::ahbm_channel)' % (C, CH), '=', '(call %s::GetChannelForDma on f:%s::ahbm $0)' % (AH, D))
+    E_LOOP = ('loop', '(while (. %s %s::running) (call %s::Tick on %s this))' % (C, CH, CH, C))
+    E_IRQ = ('call', '(() f:%s::interrupt_handler)' % D)
+    seqs = summ.summary(ctx, dodma, asserts='ignore').effect_sequences()
+    okd = bool(seqs)
+    shown = []
+    for cond, seq, p_ in seqs:
+        if not boolform.satisfiable(cond):
+            continue
+        seq = [e for e in seq if e != E_GET]
+        shown.append(seq)
+        if start_inlined:
+            # the initialisation of the channel's own fields stands where the call of Start() stood
+            init_w = [e for e in seq if e[0] == 'write' and e != E_BIND and e[1].startswith('(. %s %s::' % (C, CH))]
+            rest = [e for e in seq if e not in init_w]
+            if sorted(rest, key=str) != sorted([E_BIND, E_LOOP, E_IRQ], key=str) or p_.end != 'return' or not init_w:
+                okd = False
+                continue
+            if not (max(seq.index(e) for e in init_w) < seq.index(E_LOOP) and seq.index(E_BIND) < seq.index(E_LOOP) < seq.index(E_IRQ)):
+                okd = False
+            continue
+        if sorted(seq, key=str) != sorted([E_START, E_BIND, E_LOOP, E_IRQ], key=str) or p_.end != 'return':
+            okd = False
+            continue
+        i = {e: seq.index(e) for e in seq}
+        if not (i[E_START] < i[E_LOOP] and i[E_BIND] < i[E_LOOP] and i[E_LOOP] < i[E_IRQ]):
+            okd = False
+    if not okd:
+        ctx.report(D1, dodma, dodma['body'], 'DoDma sequence', 'DoDma is not Start; bind AHBM channel; while (running) Tick; interrupt once: %s' % shown)
+    for f in ((tick,) if start_inlined else (start, tick)):
         ctx.inst(D1)
         if any(n.get('k') == 'opcall' and n.get('op') == '()' and str(n.get('cls', '')).startswith('std::function') for n in walk(f['body'])):
             ctx.report(D1, f, f['body'], short_fn(f['id']) + ' interrupt', 'the element loop itself raises a callback')
     ctx.inst(D1)
-    t = render_stmt(setz['body'], setz)
-    if t != '{(= (. ([] f:%s::channels f:%s::active_channel) %s::z) $0) (if (== $0 16576) {(call %s::DoDma on this f:%s::active_channel)})}' % (D, D, CH, D, D):
-        ctx.report(D1, setz, setz['body'], 'SetZ start', 'a transfer is not started exactly for value == 0x40C0 on the active channel: ' + t[:300])
+    Z = ('write', '(. ([] f:%s::channels f:%s::active_channel) %s::z)' % (D, D, CH), '=', '$0')
+    GO = ('call', '(call %s::DoDma on this f:%s::active_channel)' % (D, D))
+    eff = summ.summary(ctx, setz, asserts='ignore').effect_conditions()
+    START = boolform.A('(== $0 16576)')
+    if set(eff) != {Z, GO} or boolform.equivalent(eff[Z], boolform.T) is not True or boolform.equivalent(eff[GO], START) is not True:
+        ctx.report(D1, setz, setz['body'], 'SetZ start', 'a transfer is not started exactly for value == 0x40C0 on the active channel: '
+                   + str({k: boolform.show(c) for k, c in eff.items()})[:300])
     sites = [fid for fid, f in F.items() for n in walk(f.get('body')) if n.get('k') == 'call' and short_fn(n.get('fn', '')) == D + '::DoDma' and fid.startswith('Teakra::')]
     ctx.inst(D1)
     if sorted(set(sites)) != [setz['id']]:
@@ -62,7 +96,9 @@ def run(ctx):
     rs = Renderer(start)
     for p, n, how in direct_writes(start['body']):
         if p[0] == CH:
-            sw[p[1]] = rs.r(n.get('rhs'))
+            # (written out in DoDma the fields are those of channels[channel]: the same expressions with that prefix)
+            sw[p[1]] = re.sub(r'\(\. \(\[\] f:%s::channels \$0\) (%s::\w+)\)' % (re.escape(D), re.escape(CH)), r'f:\1', rs.r(n.get('rhs'))) \
+                if start_inlined else rs.r(n.get('rhs'))
     for fld in sorted(tw & trd | {'running'}):
         ctx.inst(D2)
         if fld not in sw:
@@ -71,7 +107,8 @@ def run(ctx):
     for side in ('src', 'dst'):
         ctx.inst(D2)
         want = '(| (<< f:%s::addr_%s_high 16) f:%s::addr_%s_low)' % (CH, side, CH, side)
-        if sw.get('current_' + side) != want:
+        alt = '(| f:%s::addr_%s_low (<< f:%s::addr_%s_high 16))' % (CH, side, CH, side)      # (operand order of | is textual)
+        if sw.get('current_' + side) not in (want, alt):
             ctx.report(D2, start, start['body'], 'Start current_' + side, 'cursor is initialised from %s' % sw.get('current_' + side))
     for c in ('counter0', 'counter1', 'counter2'):
         if c in sw and sw[c] != '0':
@@ -212,7 +249,6 @@ def run(ctx):
     ctx.inst(D5)
     rg = Renderer(gc, inline_locals=False)
     conds = [rg.r(n['cond']) for n in walk(gc['body']) if n.get('k') == 'if']
-    import re
     if len(conds) != 1 or not re.match(r'^\(& \(>> \(\. \(\[\] f:Teakra::Ahbm::channels l:channel(@\d+)?\) Teakra::Ahbm::Channel::dma_channel\) \$0\) 1\)$', conds[0]) \
             and not re.match(r'^\(& 1 \(>> \(\. \(\[\] f:Teakra::Ahbm::channels l:channel(@\d+)?\) Teakra::Ahbm::Channel::dma_channel\) \$0\)\)$', conds[0]):
         ctx.report(D5, gc, gc['body'], 'GetChannelForDma', 'channel selection does not test bit `dma_channel` of the connect mask: %s' % conds)
